@@ -25,7 +25,7 @@ FLOORS = {"quick": {"steps": 100000, "sleeps": 20000, "early_sleeps": 3000, "lat
           "thorough": {"steps": 2000000, "sleeps": 400000, "early_sleeps": 60000, "late_sleeps": 40000,
                        "never_ahead_checks": 2000000, "strict_errors_expected": 6000, "strict_boundary_exact_pass": 1000,
                        "strict_checks": 800000, "syncs": 20000, "nonstrict_late_steps": 60000, "tapes_compared": 40000}}
-KEYS = tuple(FLOORS["quick"].keys()) + ("continued_after_strict_error", "huge_int_clock_cases")
+KEYS = tuple(FLOORS["quick"].keys()) + ("continued_after_strict_error", "huge_int_clock_cases", "steps_interrupted_in_sleep")
 PROFILE = {"weights": {"timeout": 6, "zero": 1, "wait": 2, "succeed": 2, "fail": 0.3, "spawn": 1.5, "join": 1.5,
                        "interrupt": 1, "cb": 0.5, "cond": 1},
            "max_top": 4, "max_child_scripts": 2, "min_ev": 0, "max_ev": 2, "p_exact": 1.0, "p_raise": 0.05,
@@ -40,12 +40,16 @@ def ncases(tier):
     return 8000 if tier == "quick" else 80000
 
 
+class SleepInterrupted(BaseException):
+    """what a signal handler / Ctrl-C raises out of time.sleep()"""
+
+
 class Clock:
     def __init__(self, script, start):
         self.t = start
         self.script = script
         self.k = 0
-        self.sleeps = self.early = self.late = 0
+        self.sleeps = self.early = self.late = self.interrupted = 0
 
     def monotonic(self):
         return self.t
@@ -54,6 +58,11 @@ class Clock:
         eps = self.script[self.k % len(self.script)]
         self.k += 1
         self.sleeps += 1
+        if eps == "raise":
+            # the sleep is cut short by an exception after a quarter of its time
+            self.interrupted += 1
+            self.t = self.t + d / 4 if self.t + d / 4 > self.t else self.t + d
+            raise SleepInterrupted()
         if eps < 0:
             self.early += 1
         elif eps > 0:
@@ -101,9 +110,13 @@ def gen_case(rng, i):
         eps = [rng.choice([0, 0.25, 0.5, 1.0]) for _ in range(7)]
     else:
         eps = [rng.choice([-0.5, 0, 0.25, -0.25, 1.0]) for _ in range(9)]
+    if rng.random() < 0.15:
+        eps = list(eps) + ["raise"] * rng.randint(1, 2)
+        rng.shuffle(eps)
     heavy = rng.random() < 0.5
+    tiny = 2.0 ** -22
     if heavy:
-        pool = [0, 0, 0, factor / 2, factor, factor, 2 * factor, factor / 4, factor + factor / 4]
+        pool = [0, 0, 0, factor / 2, factor, factor, 2 * factor, factor / 4, factor + factor / 4, factor + tiny, factor - tiny, tiny]
     else:
         pool = [0, 0, 0, 0, factor / 4, factor / 2]
     burns = [rng.choice(pool) for _ in range(23)]
@@ -171,6 +184,14 @@ def run_case(case, stats):
             got_err = False
             try:
                 env.step()
+            except SleepInterrupted:
+                # the pacing sleep was left by an exception; the caller simply calls step() again (no sync()): nothing
+                # may have been processed, and the occurrence is still not processed before its due wall time
+                stats["steps_interrupted_in_sleep"] += 1
+                if env.peek() != nxt:
+                    bad("occurrence-processed-by-interrupted-step", "a step() whose pacing sleep was left by an exception processed an occurrence", None)
+                    break
+                continue
             except RuntimeError as e:
                 if str(e).startswith("Simulation too slow for real time"):
                     got_err = True
